@@ -1,27 +1,449 @@
-//! C07 — stub, not built yet.
+//! C07 Text search and partition operations agree with plain string operations.
+//!
+//! One case = (1-3 resource texts, optional sub-selection of resource 0, known selections, one operation).
+//! Oracles are plain `str` / `Vec<char>` / `regex` operations on the *slice* of the searched range; byte
+//! positions are converted to codepoint positions by counting. See DESIGN.md §5 C07.
 
 use crate::engine::*;
 use proptest::prelude::*;
+use regex::{Regex, RegexSet};
+use serde::{Deserialize, Serialize};
+use stam::*;
+use std::collections::BTreeMap;
+
+#[path = "c07_gen.rs"]
+mod gen;
+#[path = "c07_oracle.rs"]
+mod oracle;
 
 pub struct C07;
 
+#[derive(Clone, Debug, Serialize, Deserialize, PartialEq)]
+pub enum Op {
+    /// exact search
+    Find { needle: String },
+    /// case-insensitive search
+    FindNoCase { needle: String },
+    /// sequence search; skip: 0 = non-alphabetic, 1 = whitespace, 2 = anything, 3 = nothing
+    Sequence { fragments: Vec<String>, skip: u8, case_sensitive: bool },
+    /// regular expressions (1-4), optionally with a precompiled RegexSet of the same expressions
+    Regex { exprs: Vec<String>, precompiled: bool, allow_overlap: bool },
+    Split { delimiter: String },
+    Trim { chars: Vec<char>, with_fn: bool },
+    Segmentation,
+}
+
+#[derive(Clone, Debug, Serialize, Deserialize)]
+pub struct Case {
+    /// texts of resources r0, r1, ...; everything except the store-wide searches works on r0
+    pub texts: Vec<String>,
+    /// sub-selection of r0 to search in (codepoints, begin <= end <= len); None = whole resource
+    pub sub: Option<(usize, usize)>,
+    /// annotate the sub-selection first, so that it is a known (bound) selection
+    pub bound: bool,
+    /// known selections on r0 (annotated before the operation)
+    pub known: Vec<(usize, usize)>,
+    pub op: Op,
+}
+
+impl Op {
+    pub fn name(&self) -> &'static str {
+        match self {
+            Op::Find { .. } => "find",
+            Op::FindNoCase { .. } => "nocase",
+            Op::Sequence { .. } => "seq",
+            Op::Regex { .. } => "regex",
+            Op::Split { .. } => "split",
+            Op::Trim { .. } => "trim",
+            Op::Segmentation => "seg",
+        }
+    }
+}
+
+/// one observed selection
+#[derive(Clone, Debug, PartialEq, Eq)]
+pub struct Sel {
+    pub b: usize,
+    pub e: usize,
+    pub text: String,
+    pub res: String,
+}
+
+fn obs(r: &ResultTextSelection) -> Sel {
+    Sel {
+        b: r.begin(),
+        e: r.end(),
+        text: r.text().to_string(),
+        res: r.resource().id().unwrap_or("?").to_string(),
+    }
+}
+
+/// one observed regex match
+#[derive(Clone, Debug, PartialEq, Eq)]
+pub struct RMatch {
+    pub expr: usize,
+    pub sels: Vec<Sel>,
+    pub groups: Vec<usize>,
+}
+
+/// everything the oracle needs to know about where we search
+pub struct Ctx<'a> {
+    pub resid: String,
+    pub text: &'a str,
+    pub chars: Vec<char>,
+    pub b: usize,
+    pub e: usize,
+    pub slice: &'a str,
+    pub entry: &'static str,
+    pub subclass: &'static str,
+    pub mb: &'static str,
+}
+
+impl<'a> Ctx<'a> {
+    pub fn new(resid: &str, text: &'a str, range: Option<(usize, usize)>, entry: &'static str) -> Ctx<'a> {
+        let chars: Vec<char> = text.chars().collect();
+        let (b, e) = range.unwrap_or((0, chars.len()));
+        let bytepos = |p: usize| text.char_indices().nth(p).map(|x| x.0).unwrap_or(text.len());
+        let slice = &text[bytepos(b)..bytepos(e)];
+        let subclass = match range {
+            None => "whole",
+            Some((0, _)) => "sub@0",
+            Some(_) => "sub>0",
+        };
+        let mb = if chars[..b].iter().any(|c| c.len_utf8() > 1) {
+            "mbpre"
+        } else if chars.iter().any(|c| c.len_utf8() > 1) {
+            "mb"
+        } else {
+            "ascii"
+        };
+        Ctx { resid: resid.to_string(), text, chars, b, e, slice, entry, subclass, mb }
+    }
+    /// absolute codepoint position of a byte position inside the slice
+    pub fn abs(&self, bytepos: usize) -> usize {
+        self.b + self.slice[..bytepos].chars().count()
+    }
+    pub fn sig(&self, op: &str, class: &str, kind: &str) -> String {
+        format!("{}|{}|{}|{}|{}|{}", op, class, kind, self.entry, self.subclass, self.mb)
+    }
+    pub fn substr(&self, b: usize, e: usize) -> String {
+        self.chars[b..e].iter().collect()
+    }
+    pub fn describe(&self) -> String {
+        format!("entry={} text={:?} range=({},{}) slice={:?}", self.entry, self.text, self.b, self.e, self.slice)
+    }
+}
+
+/// far above anything a legitimate result can reach (<= 3 resources x 49 positions x 4 expressions); only there to turn a non-terminating iterator into a failure
+const ITER_CAP: usize = 4000;
+
+/// collect at most ITER_CAP items; Err(()) when the iterator did not end
+fn collect_capped<I: Iterator>(it: I) -> (Vec<I::Item>, bool) {
+    let mut v = vec![];
+    for x in it {
+        if v.len() >= ITER_CAP {
+            return (v, true);
+        }
+        v.push(x);
+    }
+    (v, false)
+}
+
+/// run the case's operation through one `FindText` implementor
+fn ops_on<'store, 'slf, T>(out: &mut Outcome, t: &'slf T, ctx: &Ctx, op: &Op)
+where
+    'store: 'slf,
+    T: FindText<'store, 'slf>,
+{
+    match op {
+        Op::Find { needle } => {
+            match catch(|| {
+                let (v, runaway) = collect_capped(t.find_text(needle.as_str()));
+                (v.iter().map(obs).collect::<Vec<_>>(), runaway)
+            }) {
+                Ok((got, runaway)) => oracle::check_find(out, ctx, needle, &got, runaway),
+                Err(p) => out.fail("panic", format!("{}|{}", ctx.sig("find", "-", "panic"), p.signature()), format!("find_text({:?}) panicked at {}:{}: {} [{}]", needle, p.file, p.line, p.msg, ctx.describe())),
+            }
+        }
+        Op::FindNoCase { needle } => {
+            match catch(|| {
+                let (v, runaway) = collect_capped(t.find_text_nocase(needle.as_str()));
+                (v.iter().map(obs).collect::<Vec<_>>(), runaway)
+            }) {
+                Ok((got, runaway)) => oracle::check_nocase(out, ctx, needle, &got, runaway),
+                Err(p) => out.fail("panic", format!("{}|{}", ctx.sig("nocase", oracle::nocase_class(ctx, needle), "panic"), p.signature()), format!("find_text_nocase({:?}) panicked at {}:{}: {} [{}]", needle, p.file, p.line, p.msg, ctx.describe())),
+            }
+        }
+        Op::Sequence { fragments, skip, case_sensitive } => {
+            let frags: Vec<&str> = fragments.iter().map(|s| s.as_str()).collect();
+            let skip = *skip;
+            match catch(|| {
+                t.find_text_sequence(&frags, |c| oracle::skip_char(skip, c), *case_sensitive)
+                    .map(|v| v.iter().map(obs).collect::<Vec<_>>())
+            }) {
+                Ok(got) => oracle::check_sequence(out, ctx, fragments, skip, *case_sensitive, got),
+                Err(p) => out.fail("panic", format!("{}|{}", ctx.sig("seq", "-", "panic"), p.signature()), format!("find_text_sequence({:?}, skip={}, cs={}) panicked at {}:{}: {} [{}]", fragments, skip, case_sensitive, p.file, p.line, p.msg, ctx.describe())),
+            }
+        }
+        Op::Regex { exprs, precompiled, allow_overlap } => {
+            let Some((res, set)) = compile(exprs, *precompiled) else {
+                out.skip("regex does not compile");
+                return;
+            };
+            match catch(|| match t.find_text_regex(&res, set.as_ref(), *allow_overlap) {
+                Ok(it) => {
+                    let (v, runaway) = collect_capped(it);
+                    Ok((v.iter().map(obs_match).collect::<Vec<_>>(), runaway))
+                }
+                Err(e) => Err(format!("{}", e)),
+            }) {
+                Ok(Ok((got, runaway))) => oracle::check_regex(out, ctx, &res, *allow_overlap, &got, runaway),
+                Ok(Err(e)) => out.fail("regex.offsets", ctx.sig("regex", &oracle::regex_class(&res, *allow_overlap), "error"), format!("find_text_regex({:?}) returned Err: {} [{}]", exprs, e, ctx.describe())),
+                Err(p) => out.fail("panic", format!("{}|{}", ctx.sig("regex", &oracle::regex_class(&res, *allow_overlap), "panic"), p.signature()), format!("find_text_regex({:?}, precompiled={}, allow_overlap={}) panicked at {}:{}: {} [{}]", exprs, precompiled, allow_overlap, p.file, p.line, p.msg, ctx.describe())),
+            }
+        }
+        Op::Split { delimiter } => {
+            match catch(|| {
+                let (v, runaway) = collect_capped(t.split_text(delimiter.as_str()));
+                (v.iter().map(obs).collect::<Vec<_>>(), runaway)
+            }) {
+                Ok((got, runaway)) => oracle::check_split(out, ctx, delimiter, &got, runaway),
+                Err(p) => out.fail("panic", format!("{}|{}", ctx.sig("split", "-", "panic"), p.signature()), format!("split_text({:?}) panicked at {}:{}: {} [{}]", delimiter, p.file, p.line, p.msg, ctx.describe())),
+            }
+        }
+        Op::Trim { chars, with_fn } => {
+            match catch(|| {
+                let r = if *with_fn {
+                    t.trim_text_with(|c| chars.contains(&c))
+                } else {
+                    t.trim_text(chars)
+                };
+                r.map(|s| obs(&s)).map_err(|e| format!("{}", e))
+            }) {
+                Ok(got) => oracle::check_trim(out, ctx, chars, got),
+                Err(p) => out.fail("panic", format!("{}|{}", ctx.sig("trim", "-", "panic"), p.signature()), format!("trim_text({:?}) panicked at {}:{}: {} [{}]", chars, p.file, p.line, p.msg, ctx.describe())),
+            }
+        }
+        Op::Segmentation => {}
+    }
+}
+
+fn obs_match(m: &FindRegexMatch) -> RMatch {
+    RMatch {
+        expr: m.expression_index(),
+        sels: m.textselections().iter().map(obs).collect(),
+        groups: m.capturegroups().to_vec(),
+    }
+}
+
+fn compile(exprs: &[String], precompiled: bool) -> Option<(Vec<Regex>, Option<RegexSet>)> {
+    let mut res = vec![];
+    for e in exprs {
+        res.push(Regex::new(e).ok()?);
+    }
+    if res.is_empty() {
+        return None;
+    }
+    let set = if precompiled { Some(RegexSet::new(exprs.iter()).ok()?) } else { None };
+    Some((res, set))
+}
+
 impl Property for C07 {
-    type Case = u8;
+    type Case = Case;
     fn id(&self) -> &'static str {
         "C07"
     }
     fn rule(&self) -> String {
-        "not built yet".into()
+        "case = (1-3 resource texts of 0-28 codepoints over a per-case subset of an alphabet of 1-4 byte characters incl. length-changing case folds, optional sub-selection of r0 (bound or unbound), 0-6 known selections, one operation: find_text / find_text_nocase / find_text_sequence / find_text_regex (1-4 expressions from a small grammar, 0-2 capture groups, allow_overlap, precompiled set) / split_text / trim_text(_with) / segmentation). The operation is run through every applicable entry point (ResultItem<TextResource>, ResultTextSelection bound/unbound, ResultItem<TextSelection>, AnnotationStore-wide, segmentation / segmentation_in_range / ResultTextSelection::segmentation) and compared with str::match_indices / split / trim_matches / regex find_iter+captures_iter / a per-character lower-case reference scan on the slice of the searched range, byte positions converted to codepoints by counting. Non-trivial = non-ASCII text and (sub-selection with begin>0 or >=2 matches/pieces/segments); distinct = distinct case JSON.".into()
     }
-    fn cases(&self, _tier: Tier) -> u64 {
-        0
+    fn assumptions(&self) -> Vec<String> {
+        vec![
+            "empty needles, delimiters, fragments and empty expression lists are not generated (behaviour undocumented; find_text(\"\") does not terminate)".into(),
+            "case-insensitive = equality of per-character to_lowercase expansions; the Greek capital sigma (context-dependent lower-casing) is not in the alphabet; a match must cover whole characters".into(),
+            "find_text_sequence is three-valued: None is wrong only when the greedy first-occurrence sequence exists with every gap (incl. the leading one) skippable; Some(v) must be a valid ordered sequence with skippable gaps between matches; which of several valid sequences is returned is don't-care".into(),
+            "regular expressions: with several expressions the global order may follow whole-match begin or first-capture begin; allow_overlap=false is checked as (no two results of different expressions overlap) and (every dropped match overlaps a returned match of another expression); zero-width matches are exempt from the overlap facets; matches in which no capture group participates are don't-care; capturegroups() is only checked for expressions with capture groups; regexes are applied to the slice (no look-around across the range boundaries is generated: no anchors or \\b)".into(),
+            "trim_text on text that is trimmed away entirely may return Err or any empty selection inside the range".into(),
+            "segmentation of an empty range is don't-care (must not panic); segmentation ranges are generated with begin<=end<=textlen".into(),
+            "resource order of the store-wide searches is don't-care; per resource the results must be the per-resource results".into(),
+        ]
     }
-    fn strategy(&self, _tier: Tier) -> BoxedStrategy<u8> {
-        any::<u8>().boxed()
+    fn cases(&self, tier: Tier) -> u64 {
+        tier.pick(300_000, 8_000_000)
     }
-    fn run(&self, _case: &u8) -> Outcome {
-        let mut o = Outcome::new();
-        o.skip("not built");
-        o
+    fn strategy(&self, tier: Tier) -> BoxedStrategy<Case> {
+        gen::case_strategy(tier)
+    }
+
+    fn run(&self, case: &Case) -> Outcome {
+        let mut out = Outcome::new();
+        // ---- validate the case (replay files may be hand-written)
+        if case.texts.is_empty() || case.texts.len() > 4 {
+            out.skip("invalid case: texts");
+            return out;
+        }
+        let chars0: Vec<char> = case.texts[0].chars().collect();
+        let len0 = chars0.len();
+        if let Some((b, e)) = case.sub {
+            if b > e || e > len0 {
+                out.skip("invalid case: sub");
+                return out;
+            }
+        }
+        if case.known.iter().any(|(b, e)| b > e || *e > len0) {
+            out.skip("invalid case: known");
+            return out;
+        }
+        let empty_param = match &case.op {
+            Op::Find { needle } | Op::FindNoCase { needle } => needle.is_empty(),
+            Op::Sequence { fragments, .. } => fragments.is_empty() || fragments.iter().any(|f| f.is_empty()),
+            Op::Regex { exprs, .. } => exprs.is_empty(),
+            Op::Split { delimiter } => delimiter.is_empty(),
+            _ => false,
+        };
+        if empty_param {
+            out.skip("invalid case: empty needle/delimiter/expression list (undocumented)");
+            return out;
+        }
+        // ---- build the store
+        let mut store = AnnotationStore::default();
+        for (i, t) in case.texts.iter().enumerate() {
+            if store
+                .add_resource(TextResourceBuilder::new().with_id(format!("r{}", i)).with_text(t.as_str()))
+                .is_err()
+            {
+                out.skip("add_resource failed");
+                return out;
+            }
+        }
+        let mut known: Vec<(usize, usize)> = vec![];
+        let mut annotate = |store: &mut AnnotationStore, b: usize, e: usize| -> bool {
+            store
+                .annotate(
+                    AnnotationBuilder::new()
+                        .with_target(SelectorBuilder::textselector("r0", Offset::simple(b, e)))
+                        .with_data("s", "k", "v"),
+                )
+                .is_ok()
+        };
+        for (b, e) in &case.known {
+            if !annotate(&mut store, *b, *e) {
+                out.skip("annotate of known selection failed");
+                return out;
+            }
+            known.push((*b, *e));
+        }
+        if let (Some((b, e)), true) = (case.sub, case.bound) {
+            if !annotate(&mut store, b, e) {
+                out.skip("annotate of sub-selection failed");
+                return out;
+            }
+            known.push((b, e));
+        }
+        let store = &store;
+        let Some(res) = store.resource("r0") else {
+            out.skip("resource r0 not found");
+            return out;
+        };
+        let text0: &str = case.texts[0].as_str();
+
+        // ---- labels
+        let opname = case.op.name();
+        out.label(&format!("op.{}", opname));
+        let nonascii = !text0.is_ascii();
+        if nonascii {
+            out.label("nonascii");
+        }
+        match case.sub {
+            None => out.label("sub.none"),
+            Some((0, _)) => out.label("sub.begin=0"),
+            Some((b, _)) => {
+                out.label("sub.begin>0");
+                if chars0[..b].iter().any(|c| c.len_utf8() > 1) {
+                    out.label("sub.multibyte-before");
+                }
+            }
+        }
+        if case.sub.is_some() && case.bound {
+            out.label("sub.bound");
+        }
+        if case.texts.len() > 1 {
+            out.label("multi-resource");
+        }
+
+        // ---- the operation through every entry point
+        if let Op::Segmentation = case.op {
+            oracle::run_segmentation(&mut out, &res, text0, case.sub, &known);
+        } else {
+            match case.sub {
+                None => {
+                    let ctx = Ctx::new("r0", text0, None, "res");
+                    ops_on(&mut out, &res, &ctx, &case.op);
+                    // the whole text as a selection
+                    match catch(|| res.textselection(&Offset::whole())) {
+                        Ok(Ok(sel)) => {
+                            let ctx = Ctx::new("r0", text0, None, "sel.whole");
+                            ops_on(&mut out, &sel, &ctx, &case.op);
+                        }
+                        _ => out.fail("setup", "textselection-whole", "textselection(Offset::whole()) failed"),
+                    }
+                }
+                Some((b, e)) => match catch(|| res.textselection(&Offset::simple(b, e))) {
+                    Ok(Ok(sel)) => {
+                        let entry = match &sel {
+                            ResultTextSelection::Bound(_) => "sel.bound",
+                            ResultTextSelection::Unbound(..) => "sel.unbound",
+                        };
+                        if case.bound && entry != "sel.bound" {
+                            out.fail("setup", "bound-selection-not-found", format!("annotated selection ({},{}) is not returned as bound by textselection()", b, e));
+                        }
+                        let ctx = Ctx::new("r0", text0, Some((b, e)), entry);
+                        ops_on(&mut out, &sel, &ctx, &case.op);
+                        if let Some(item) = sel.as_resultitem() {
+                            let item = item.clone();
+                            let ctx = Ctx::new("r0", text0, Some((b, e)), "item");
+                            ops_on(&mut out, &item, &ctx, &case.op);
+                            out.label("entry.item");
+                        }
+                    }
+                    _ => out.fail("setup", "textselection-sub", format!("textselection(({},{})) failed on text of {} codepoints", b, e, len0)),
+                },
+            }
+            // store-wide variants
+            if case.texts.len() > 1 || case.sub.is_none() {
+                oracle::run_storewide(&mut out, store, &case.texts, &case.op);
+            }
+        }
+        oracle::finish_labels(&mut out, nonascii, case);
+        out
+    }
+
+    fn health(&self, labels: &BTreeMap<String, u64>, evals: u64) -> Vec<String> {
+        let mut v = vec![];
+        if evals < 2000 {
+            return v;
+        }
+        let frac = |l: &str| *labels.get(l).unwrap_or(&0) as f64 / evals as f64;
+        for (l, min) in [
+            ("nonascii", 0.50),
+            ("sub.begin>0", 0.25),
+            ("sub.multibyte-before", 0.15),
+            ("results>=2", 0.25),
+            ("op.find", 0.08),
+            ("op.nocase", 0.08),
+            ("op.seq", 0.05),
+            ("op.regex", 0.12),
+            ("op.split", 0.08),
+            ("op.trim", 0.05),
+            ("op.seg", 0.08),
+            ("regex.capture-groups", 0.04),
+            ("regex.multi-expr", 0.04),
+            ("nocase.lenchange", 0.02),
+            ("seg.known>=2", 0.04),
+        ] {
+            if frac(l) < min {
+                v.push(format!("label {} only {:.1}% of cases (< {:.0}%)", l, frac(l) * 100.0, min * 100.0));
+            }
+        }
+        v
     }
 }
